@@ -91,6 +91,9 @@ static inline void SparseCM_assign(SparseCM *dst, TrView *v) { g_cm_dst = dst; g
   __CPROVER_ensures(__CPROVER_return_value->IndexInfo == self->IndexInfo && __CPROVER_return_value->S == self->S && __CPROVER_return_value->PIndex == self->PIndex) \
   /* blocks swapped: the new part's right-hand Hamiltonian part is this part's left-hand one and vice versa */ \
   __CPROVER_ensures(__CPROVER_return_value->HFrom == self->HTo && __CPROVER_return_value->HTo == self->HFrom) \
+  /* status invariant "Computed => the matrices are the rotated operator" (what compute() establishes and every reader relies on): \
+   * the new part may report Computed only if it received the matrices of a computed part (the code leaves it Constructed) */ \
+  __CPROVER_ensures(__CPROVER_return_value->Status >= Computed ==> self->Status >= Computed) \
   /* matrices: each storage order receives the transpose of this part's matrix of the same order, once */ \
   __CPROVER_ensures(g_rm_n == 1 && g_rm_dst == &__CPROVER_return_value->elementsRowMajor && g_rm_src == &self->elementsRowMajor) \
   __CPROVER_ensures(g_cm_n == 1 && g_cm_dst == &__CPROVER_return_value->elementsColMajor && g_cm_src == &self->elementsColMajor) \
@@ -103,7 +106,7 @@ __CPROVER_requires(PART_WF(self) && self->kind == 2)
 __CPROVER_assigns(g_rm_dst, g_rm_src, g_cm_dst, g_cm_src, g_rm_n, g_cm_n)
 TRANSPOSED(self, 1)
 //@end
-//@harness h_AOP_transpose enforce=AOP_transpose props=C10 min_obl=491 reach=1 timeout=120
+//@harness h_AOP_transpose enforce=AOP_transpose props=C10 min_obl=504 reach=1 timeout=120
 void h_AOP_transpose(void) { struct FieldOperatorPart *p; AOP_transpose(p); REACH("exit"); }
 
 //@function Pomerol::CreationOperatorPart::transpose() const as COP_transpose
@@ -112,7 +115,7 @@ __CPROVER_requires(PART_WF(self) && self->kind == 1)
 __CPROVER_assigns(g_rm_dst, g_rm_src, g_cm_dst, g_cm_src, g_rm_n, g_cm_n)
 TRANSPOSED(self, 2)
 //@end
-//@harness h_COP_transpose enforce=COP_transpose props=C10 min_obl=491 reach=1 timeout=120
+//@harness h_COP_transpose enforce=COP_transpose props=C10 min_obl=504 reach=1 timeout=120
 void h_COP_transpose(void) { struct FieldOperatorPart *p; COP_transpose(p); REACH("exit"); }
 
 /* ---- mutation record (tools/try_mutant.py; every mutant KILLED) -----------------------------------------------------------------
